@@ -866,6 +866,7 @@ UNITS = [
     ("lock coverage, deque primitives", ["LockCoverage.lean"], unit_lockcov),
     ("deque_pop, queue_find, call_pos, task predicates", ["Sched.lean"], lambda src: {"Sched.lean": gen_sched(src)}),
     ("tools.PriorityQueue", ["PQ.lean"], lambda src: __import__("pq2lean").generate(src)),
+    ("heapq.py of the running interpreter", ["Heapq.lean"], lambda src: __import__("heapq2lean").generate(src)),
     ("PosPriorityQueue", ["PosPQ.lean"], lambda src: __import__("pospq2lean").generate(src)),
     ("task_throw, task_interrupt prefix", ["Interrupt.lean"], lambda src: __import__("interrupt2lean").generate(src)),
     ("scheduling ops", ["SchedOps.lean"], lambda src: __import__("sched2lean").generate(src)),
